@@ -128,7 +128,8 @@ def rule_write_target(ctx, rep):
     # self.path of writers = Path(dependency_store.file)
     wi = ctx.prog.func("codemodder.dependency_management.base_dependency_writer.DependencyWriter.__init__")
     ok = any(
-        isinstance(n, ast.Assign) and isinstance(n.targets[0], ast.Attribute) and n.targets[0].attr == "path" and "dependency_store.file" in unparse(n.value)
+        isinstance(n, ast.Assign) and isinstance(n.targets[0], ast.Attribute) and n.targets[0].attr == "path"
+        and unparse(n.value).replace(" ", "") in ("Path(dependency_store.file)", "dependency_store.file", "pathlib.Path(dependency_store.file)")
         for n in walk_no_nested(wi.node)
     )
     rep.check("R-WRITE-TARGET", wi.qname, wi.loc(), ok, "writer-path", "DependencyWriter.path is not derived from dependency_store.file")
@@ -220,7 +221,14 @@ def rule_pattern_args(ctx, rep, rule_id="R-PATTERN-ARGS", families=(1, 2)):
         for n in walk_no_nested(fn.node):
             if not isinstance(n, ast.Call):
                 continue
-            for t in r.resolve_call(n):
+            targets = list(r.resolve_call(n))
+            # dataclass constructor: synthesise the parameter list from the annotated fields
+            for t in list(targets):
+                if isinstance(t, str) and t in ctx.prog.classes and any("dataclass" in unparse(d) for d in ctx.prog.classes[t].node.decorator_list):
+                    ci = ctx.prog.classes[t]
+                    fake = ast.parse("def __init__(self, " + ", ".join(ci.ann.keys()) + "): pass").body[0]
+                    targets.append(FuncInfo(t + ".__init__", ci.module, fake, ci))
+            for t in targets:
                 if not isinstance(t, FuncInfo):
                     continue
                 params = set(t.params())
